@@ -7,15 +7,15 @@ import vp
 LEVEL = "proof"
 META = {
     "level": "proof",
-    "technique": "Coq proof (certificate form) of the stack traversal + extracted-model correspondence with Collider + all-pairs oracle",
+    "technique": "Coq proofs (Karras radix-tree well-formedness for all sorted inputs; exactness of the stack traversal, x-sorted sweep and k-d query) + extracted-model correspondence with Collider/boolean2/tree2d + all-pairs oracle",
     "text": "Coq theorems collisions_exact_box/point: for every node/children/box arrays accepted by the proved-sound certificate wf_check "
             "(binary tree, depth<=64, leaves 0..n-1 once, internal boxes = unions), the ported 64-entry-stack traversal terminates and records exactly "
             "the overlapping (query,leaf) pairs, each once, for all sizes and queries. The ported CreateRadixTree (RangeEnd/FindSplit/PrefixLength) is "
             "proved well-formed exhaustively for a stated bound and is compared array-for-array with /repo's Collider on generated sorted code multisets; "
             "wf_check runs on every tree the implementation builds; recorded pairs are compared with the all-pairs scan.",
     "note": "Trusted: Coq kernel, extraction (ExtrOcamlBasic), the C++ harness reading Collider's private arrays, integer-valued boxes standing for doubles "
-            "(order-isomorphic embedding). Not proved: general (unbounded) well-formedness of the Karras construction - certificate-checked per tree instead. "
-            "2-D BVH/sweep/k-d tree are oracle-checked, not modelled.",
+            "(order-isomorphic embedding). Not modelled: C++ int overflow in RangeEnd for n > 2^29 leaves; the 64-entry explicit stack of QueryTwoDTree (recursion in the model); "
+            "BuildInternalBoxes' atomic arrival counters (modelled as order-independent unions); MortonCode's floating-point part.",
 }
 
 
@@ -111,8 +111,7 @@ def brute(c):
 
 def run(cx):
     cx.assumptions += [
-        "theorem is in certificate form: it covers every tree that passes wf_check; wf_check is evaluated (extracted) on every tree the implementation builds in this run",
-        "general radix-tree well-formedness is proved only exhaustively for the bounded code lists named in radix_tree_wf_small",
+        "collisions_exact_* are stated for every array set accepted by wf_check; radix_tree_wf_all proves that the ported CreateRadixTree produces such a tree for every sorted code list with 2 <= n < 2^30 (unbounded Z arithmetic: the C++ int overflow of max_length for n > 2^29 is outside the model); wf_check is additionally evaluated (extracted) on every tree the implementation builds in this run",
         "leaf boxes and queries are integer valued in the correspondence (finite doubles embed order-isomorphically; min/max/<= are exact)",
         "QueryTwoDTree's explicit 64-entry stack is modelled by recursion (depth <= log2 n + 1 is not proved)",
         "sweep_pairs_exact covers membership, not multiplicity (the oracle compares the exact list)",
